@@ -299,6 +299,35 @@ def check_flow(case, ctx):
     fixpoint(fb1, "codec/finalised")
     fb2, tx2 = must(finish, "workflow/finalise_second_history", c2)
     require(tx1.serialize() == tx2.serialize() and fb1 == fb2, "workflow/final_tx_depends_on_order")
+
+    # the same two orders again, entirely IN MEMORY (no serialise/parse between the steps): everybody
+    # signs the same object in the history's order, or in-memory copies are combined in that order
+    def in_memory(order, combine_objects):
+        if combine_objects:
+            parts = []
+            for s in order:
+                q = PSBT.parse(BytesIO(base))
+                q.sign(w.roots[s])
+                parts.append(q)
+            acc = parts[0]
+            for q in parts[1:]:
+                acc.combine(q)
+        else:
+            acc = PSBT.parse(BytesIO(base))
+            for s in order:
+                acc.sign(w.roots[s])
+        combined = acc.serialize()
+        acc.finalize()
+        return combined, acc.final_tx().serialize()
+
+    for hist, how in ((case["h1"], False), (case["h2"], True)):
+        if not hist["order"]:
+            continue
+        cm, txm = must(in_memory, "workflow/in_memory_finalise", list(hist["order"]), how)
+        ctx.label("in_memory_path")
+        require(cm == c1, "workflow/combined_psbt_depends_on_order:in_memory")
+        require(txm == tx1.serialize(), "workflow/final_tx_depends_on_order:in_memory",
+                f"order={hist['order']} combine_objects={how} kind={kind} m={w.m} n={w.n}")
     for j in range(case["n_in"]):
         st_, ok = attempt(tx1.verify_input, j)
         require(st_ == "ok" and ok is True, "workflow/final_tx_input_does_not_verify", f"input {j} kind={kind}")
